@@ -24,3 +24,43 @@ def c06_paren_intersection_lost(w, v):
         return False
     f = w.get('formula') or ''
     return ') (' in f and w.get('observed') == w.get('as_two_arguments')
+
+
+MAXROW = 1048576
+
+
+def _touches_edge(cls):
+    return cls[5] == MAXCOL or cls[6] == MAXROW
+
+
+@matcher('c04_last_row_or_column')
+def c04_last_row_or_column(w, v):
+    """The canonical name renders the grid's last column / last row as empty
+    text (XFD1048576 -> '', A1048576 -> 'A', A1:A1048576 -> 'A1:A'), so
+    rectangles touching that edge get several ids, ids that do not re-read,
+    and ids shared with other rectangles."""
+    parts = v['sig'].split(':')
+    if 'edge' not in parts:
+        return False
+    case = w.get('case') or {}
+    classes = [case.get(k) for k in ('cls', 'a', 'b') if case.get(k)]
+    if case.get('kind') == 'columns':
+        return case.get('hi') == MAXCOL + 1 and case.get('lo') == MAXCOL
+    return bool(classes) and any(_touches_edge(c) for c in classes)
+
+
+@matcher('c04_sheet_name_not_requoted')
+def c04_sheet_name_not_requoted(w, v):
+    """The canonical id quotes a sheet name only when it contains a space and
+    never re-doubles an apostrophe, so ids of sheets such as S-1, 2020 or it's
+    cannot be read back."""
+    parts = v['sig'].split(':')
+    if parts[0] != 'reread' or parts[-1] not in (
+            'apostrophe', 'punct', 'digit-first'):
+        return False
+    name = w.get('name') or ''
+    sheet = name.rsplit('!', 1)[0]
+    if parts[-1] == 'apostrophe':
+        inner = sheet[1:-1] if sheet.startswith("'") else sheet
+        return "'" in inner.replace("''", '')
+    return not sheet.startswith("'")
